@@ -656,20 +656,23 @@ class cst(exp):
 
     @_checkarg_numeric
     def __rshift__(self, n):
-        self.sf = False  # rshift implements logical right shift
         if n._is_cst:
-            return cst(self.value >> n.value, self.size)
+            # rshift implements logical right shift: use the unsigned value
+            # (self may be shared, e.g. the value of a register in a mapper)
+            return cst(self.v >> n.value, self.size)
         else:
+            self.sf = False
             return exp.__rshift__(self, n)
 
     @_checkarg_numeric
     def __floordiv__(self, n):
-        # read the shift amount first: n may be self (x .>> x)
-        amount = n.value if n._is_cst else None
-        self.sf = True  # floordiv implements arithmetic right shift
         if n._is_cst:
-            return cst(self.value >> amount, self.size)
+            # floordiv implements arithmetic right shift: use the signed value
+            # (self may be shared, e.g. the value of a register in a mapper)
+            v = self.v - (1 << self.size) if self.v >> (self.size - 1) else self.v
+            return cst(v >> n.value, self.size)
         else:
+            self.sf = True
             return exp.__floordiv__(self, n)
 
     @_checkarg_numeric
